@@ -238,6 +238,11 @@ func cmdCheck(args []string) int {
 	harnessErr := false
 	confOK, confSteps := 0, 0
 	var confBlocks int64
+	type scStat struct {
+		States, Transitions, NonTrivial, DepthDone, MaxDepth, Conform int
+		Exhaustive                                                     bool
+	}
+	perScenario := map[string]*scStat{}
 
 	if c.Scenarios != nil {
 		n := c.Workers
@@ -310,6 +315,24 @@ func cmdCheck(args []string) int {
 					harnessErr = true
 				}
 				st := o.Stats
+				ps := perScenario[o.Scenario]
+				if ps == nil {
+					ps = &scStat{Exhaustive: true, DepthDone: st.DepthDone}
+					perScenario[o.Scenario] = ps
+				}
+				ps.States += st.States
+				ps.Transitions += st.Transitions
+				ps.NonTrivial += st.NonTrivial
+				ps.Conform += o.ConformOK
+				if st.DepthDone < ps.DepthDone {
+					ps.DepthDone = st.DepthDone
+				}
+				if st.MaxDepth > ps.MaxDepth {
+					ps.MaxDepth = st.MaxDepth
+				}
+				if !st.Exhaustive {
+					ps.Exhaustive = false
+				}
 				merged.States += st.States
 				merged.Transitions += st.Transitions
 				merged.PanicTx += st.PanicTx
@@ -513,6 +536,13 @@ func cmdCheck(args []string) int {
 		cov["height_jumps"] = merged.Jumps
 		cov["jump_side_condition_checks"] = merged.JumpChecks
 		cov["scenarios"] = scenarioNames
+		scs := map[string]interface{}{}
+		for name, ps := range perScenario {
+			scs[name] = map[string]interface{}{"states": ps.States, "transitions": ps.Transitions, "nontrivial_states": ps.NonTrivial,
+				"depth_completed": ps.DepthDone, "max_depth_reached": ps.MaxDepth, "traces_validated_against_impl": ps.Conform, "exhaustive": ps.Exhaustive}
+		}
+		cov["per_scenario"] = scs
+		cov["depth_note"] = "depth_completed at top level is the minimum over the scenarios (each scenario has its own bound); see per_scenario"
 		cov["states_note"] = "sum of per-worker distinct states (levels above the split level counted once)"
 	} else {
 		cov["evaluations"] = extra.Evaluations
@@ -566,7 +596,22 @@ func cmdReplay(args []string) int {
 		return 2
 	}
 	c := checks.Registry[tr.Check]
-	if c == nil || c.Scenarios == nil {
+	if c == nil {
+		fmt.Fprintln(os.Stderr, "unknown check", tr.Check)
+		return 2
+	}
+	if tr.Scenario == "extra" {
+		if out, ok := checks.ReplayExtra(tr.Check, tr.Finding); ok {
+			fmt.Println(out)
+			if strings.Contains(out, "REPRODUCED") && !strings.Contains(out, "NOT REPRODUCED") {
+				return 1
+			}
+			return 0
+		}
+		fmt.Println("this finding comes from an enumeration leg; its input is:", tr.Finding.Trace, "- re-run the check to reproduce it")
+		return 2
+	}
+	if c.Scenarios == nil {
 		fmt.Fprintln(os.Stderr, "trace of a check without engine-X scenarios")
 		return 2
 	}
